@@ -713,7 +713,12 @@ pub struct C18Scn {
     pub line_len: usize,
     pub cap: usize,
     pub script: Vec<u32>,
+    /// false: next(); true: record sets (see `set_mode`)
     pub sets: bool,
+    /// with `sets`: 0 = read_record_set() only, 1 = read_record_set_exact(1) only,
+    /// k >= 2: (k-1) next() calls, then one read_record_set(), repeated
+    #[serde(default)]
+    pub set_mode: usize,
     pub warm: usize,
     pub window: usize,
 }
@@ -758,6 +763,11 @@ pub fn gen_c18(rng: &Rng, tier: Tier) -> C18Scn {
         cap: 0,
         script: gen_script(rng, true),
         sets: rng.chance(1, 2),
+        set_mode: match rng.below(4) {
+            0 | 1 => 0,
+            2 => 1,
+            _ => rng.range(2, 5),
+        },
         warm: rng.range(4, 40),
         window: match tier {
             Tier::Quick => rng.range(50, 400),
@@ -772,8 +782,8 @@ pub fn gen_c18(rng: &Rng, tier: Tier) -> C18Scn {
 
 pub fn run_c18(s: &C18Scn, st: &mut Stats) -> RunResult {
     let mut v: Vec<Violation> = vec![];
-    let per_call = if s.sets { (s.cap / c18_record(s, 0).len().max(1)).max(1) } else { 1 };
-    let n_records = (s.warm + s.window + 4) * per_call + 8;
+    let per_call = if s.sets && s.set_mode != 1 { (s.cap / c18_record(s, 0).len().max(1)).max(1) } else { 1 };
+    let n_records = (s.warm.max(3 * s.set_mode) + s.window + 4) * per_call + 8;
     let mut input = Vec::with_capacity(n_records * c18_record(s, 0).len());
     for i in 0..n_records {
         input.extend_from_slice(&c18_record(s, i));
@@ -792,9 +802,16 @@ pub fn run_c18(s: &C18Scn, st: &mut Stats) -> RunResult {
                 let mut rd = fasta::Reader::with_capacity(src, s.cap).set_policy(pol);
                 let mut set = fasta::RecordSet::default();
                 let mut max_batch = 0;
+                let mut calls = 0usize;
                 let mut step = |rd: &mut fasta::Reader<SimSource, SimPolicy>, set: &mut fasta::RecordSet, sum: &mut usize| -> usize {
-                    if s.sets {
-                        rd.read_record_set(set).expect("enough input").expect("valid input");
+                    calls += 1;
+                    let use_set = s.sets && (s.set_mode < 2 || calls % s.set_mode == 0);
+                    if use_set {
+                        if s.set_mode == 1 {
+                            rd.read_record_set_exact(set, Some(1)).expect("enough input").expect("valid input");
+                        } else {
+                            rd.read_record_set(set).expect("enough input").expect("valid input");
+                        }
                         for r in &*set {
                             *sum += r.head().len();
                             for l in r.seq_lines() {
@@ -811,7 +828,8 @@ pub fn run_c18(s: &C18Scn, st: &mut Stats) -> RunResult {
                         1
                     }
                 };
-                for _ in 0..s.warm {
+                // the warm-up covers at least three complete cycles of the call pattern
+                for _ in 0..s.warm.max(3 * s.set_mode) {
                     max_batch = max_batch.max(step(&mut rd, &mut set, &mut sum));
                 }
                 let g0 = seam.borrow().all_grows.len();
@@ -838,9 +856,16 @@ pub fn run_c18(s: &C18Scn, st: &mut Stats) -> RunResult {
                 let mut rd = fastq::Reader::with_capacity(src, s.cap).set_policy(pol);
                 let mut set = fastq::RecordSet::default();
                 let mut max_batch = 0;
+                let mut calls = 0usize;
                 let mut step = |rd: &mut fastq::Reader<SimSource, SimPolicy>, set: &mut fastq::RecordSet, sum: &mut usize| -> usize {
-                    if s.sets {
-                        rd.read_record_set(set).expect("enough input").expect("valid input");
+                    calls += 1;
+                    let use_set = s.sets && (s.set_mode < 2 || calls % s.set_mode == 0);
+                    if use_set {
+                        if s.set_mode == 1 {
+                            rd.read_record_set_exact(set, Some(1)).expect("enough input").expect("valid input");
+                        } else {
+                            rd.read_record_set(set).expect("enough input").expect("valid input");
+                        }
                         for r in &*set {
                             *sum += r.head().len() + r.seq().len() + r.qual().len();
                         }
@@ -851,7 +876,8 @@ pub fn run_c18(s: &C18Scn, st: &mut Stats) -> RunResult {
                         1
                     }
                 };
-                for _ in 0..s.warm {
+                // the warm-up covers at least three complete cycles of the call pattern
+                for _ in 0..s.warm.max(3 * s.set_mode) {
                     max_batch = max_batch.max(step(&mut rd, &mut set, &mut sum));
                 }
                 let g0 = seam.borrow().all_grows.len();
@@ -887,7 +913,7 @@ pub fn run_c18(s: &C18Scn, st: &mut Stats) -> RunResult {
                 st.probe("probe.refill");
             }
             if allocs != 0 {
-                v.push(Violation::new("C18.allocation_in_steady_state", format!("{} heap allocation(s) during {} steady-state {} calls after a warm-up of {} (records of {} bytes, capacity {})", allocs, calls, if s.sets { "read_record_set" } else { "next" }, s.warm, c18_record(s, 0).len(), s.cap)));
+                v.push(Violation::new("C18.allocation_in_steady_state", format!("{} heap allocation(s) during {} steady-state {} calls after a warm-up of {} (records of {} bytes, capacity {})", allocs, calls, if !s.sets { "next".to_string() } else if s.set_mode == 0 { "read_record_set".to_string() } else if s.set_mode == 1 { "read_record_set_exact(1)".to_string() } else { format!("{}x next + read_record_set", s.set_mode - 1) }, s.warm, c18_record(s, 0).len(), s.cap)));
             }
             if grows != 0 {
                 v.push(Violation::new("C18.growth_in_steady_state", format!("grow_to was called {} time(s) in the steady-state window (capacity {}, record length {})", grows, s.cap, c18_record(s, 0).len())));
@@ -896,11 +922,12 @@ pub fn run_c18(s: &C18Scn, st: &mut Stats) -> RunResult {
     }
     let h = hash_bytes(&serde_json::to_vec(s).unwrap_or_default());
     st.set_insert("nontrivial", h);
-    st.set_insert("states", vcore::mix(s.sets as u64, (s.fmt == Fmt::Fasta) as u64 * 2 + s.crlf as u64 * 4 + (s.n_lines.min(3) as u64) * 8));
+    st.set_insert("states", vcore::mix(s.sets as u64 + 2 * s.set_mode.min(3) as u64, (s.fmt == Fmt::Fasta) as u64 * 2 + s.crlf as u64 * 4 + (s.n_lines.min(3) as u64) * 8));
+    st.count(&format!("op.mode.{}", if !s.sets { "next" } else if s.set_mode == 0 { "record_set" } else if s.set_mode == 1 { "record_set_exact_1" } else { "next_and_record_set_alternating" }), 1);
     let _ = sum;
     for x in v.iter_mut() {
         x.features.insert(format!("fmt:{}", if s.fmt == Fmt::Fasta { "fasta" } else { "fastq" }));
-        x.features.insert(format!("mode:{}", if s.sets { "sets" } else { "next" }));
+        x.features.insert(format!("mode:{}", if s.sets { format!("sets{}", s.set_mode) } else { "next".to_string() }));
     }
     RunResult { violations: v, log_hash: vcore::mix(lg.hash, h) }
 }
@@ -965,7 +992,7 @@ impl Check for C18 {
         out
     }
     fn rule_text(&self) -> String {
-        "uniform records (same byte length, line count and id width; LF or CRLF; FASTA 0..5 lines, FASTQ), capacity of 2..6 records plus a remainder, chunk script with short reads and Interrupted, warm-up of 4..40 calls, then a measured window of 50..5000 next() calls or read_record_set() calls into one reused set, iterating every record handed out. A counting #[global_allocator] (thread-local, armed only around the window) must count 0 allocations/reallocations and the recording policy 0 grow_to calls. A window batch holding more records than any warm-up batch restarts the window (a larger batch may legitimately grow the set's offset vectors). distinct_nontrivial = distinct scenario parameter tuples.".into()
+        "uniform records (same byte length, line count and id width; LF or CRLF; FASTA 0..5 lines, FASTQ), capacity of 2..6 records plus a remainder, chunk script with short reads and Interrupted, warm-up of 4..40 calls, then a measured window of 50..5000 calls of one of four kinds - next(); read_record_set() into one reused set; read_record_set_exact(1); (k-1) next() calls alternating with one read_record_set() - iterating every record handed out. A counting #[global_allocator] (thread-local, armed only around the window) must count 0 allocations/reallocations and the recording policy 0 grow_to calls. A window batch holding more records than any warm-up batch restarts the window (a larger batch may legitimately grow the set's offset vectors). distinct_nontrivial = distinct scenario parameter tuples.".into()
     }
     fn assumptions(&self) -> Vec<String> {
         vec![
